@@ -612,8 +612,34 @@ def results_specs():
     return specs()
 
 
+def _generator_profile(count: int, seed: int) -> dict:
+    """ class frequencies of freshly generated specs (the runner counts classes of passing cases only, and every
+        case that shows a known finding is excluded there, so the generator is measured separately) """
+    import collections
+    import hypothesis
+    from hypothesis import HealthCheck, Phase, given, settings
+    counter: collections.Counter = collections.Counter()
+    seen = [0]
+
+    @hypothesis.seed(seed)
+    @settings(max_examples=count, deadline=None, database=None, suppress_health_check=list(HealthCheck),
+              phases=[Phase.generate])
+    @given(rec.record_specs())
+    def sample(spec: dict) -> None:
+        seen[0] += 1
+        classes = rec.spec_classes(spec)
+        counter.update(set(classes))
+        if rec.spec_is_nontrivial(spec, classes):
+            counter["<nontrivial by the spec alone>"] += 1
+
+    sample()
+    return {"specs": seen[0], "classes": dict(sorted(counter.items()))}
+
+
 def run(ctx) -> None:
     shards = ctx.pick(8, 16)
+    ctx.extra["generated_spec_profile"] = _generator_profile(ctx.pick(150, 1500), ctx.seed)
+    ctx.extra["bounds"] = {"record_length": [300, 5000], "genes": [1, 8], "protoclusters": [0, 5], "subregions": [0, 3]}
     ctx.hyp("genbank", rec.record_specs(), max_examples=ctx.pick(700, 24000), shards=shards)
     ctx.hyp("json", rec.record_specs(), max_examples=ctx.pick(500, 16000), shards=shards)
     ctx.hyp("results", results_specs(), max_examples=ctx.pick(300, 8000), shards=shards)
